@@ -18,7 +18,7 @@ def PcOk (s : State K V) : Pc K V → Prop
   | .sFillV e k v _ => (k, v) ∈ s.hist ∧ (s.ent e).k = k
   | .sUnlock e k v _ => (k, v) ∈ s.hist ∧ (s.ent e).k = k ∧ (s.ent e).v = some v
   | .rUnlock e => (s.ent e).v = none
-  | .gCopy e k => (s.ent e).k = k ∧ (s.ent e).v ≠ none
+  | .gCopy e k _ _ => (s.ent e).k = k ∧ (s.ent e).v ≠ none
   | .gUnlockHit _ k v => (k, v) ∈ s.hist
   | .gDone k (some v) => (k, v) ∈ s.hist
   | .gBad => False
@@ -127,6 +127,13 @@ theorem pcok_datastep {s : State K V} (h : Inv s) (t e : Nat) (x : Entry K V) (p
     intro e' he'
     simp only [State.setPc, State.setEnt, upd, he', if_false]
 
+theorem again_wsec (k : K) (n m : Nat) : (Pc.again k n m : Pc K V).wsec = none := by
+  unfold Pc.again; split <;> rfl
+theorem again_rsec (k : K) (n m : Nat) : (Pc.again k n m : Pc K V).rsec = none := by
+  unfold Pc.again; split <;> rfl
+theorem again_ok (s : State K V) (k : K) (n m : Nat) : PcOk s (Pc.again k n m) := by
+  unfold Pc.again; split <;> trivial
+
 section
 variable [Inhabited K] [DecidableEq K]
 
@@ -196,22 +203,33 @@ theorem step_inv {s s' : State K V} (h : Inv s) (st : Step s s') : Inv s' := by
     · exact pcok_lockstep h t e _ _ rfl rfl hp.1
   case storeSet t e k v nx hpc =>
     exact inv_setPc h t _ (by rw [hpc]; rfl) (by rw [hpc]; rfl) trivial
+  case storeRefused t e k v nx hpc =>
+    exact inv_setPc h t _ (by rw [hpc]; rfl) (by rw [hpc]; rfl) trivial
   case callGet t k hpc =>
     exact inv_setPc h t _ (by rw [hpc]; rfl) (by rw [hpc]; rfl) trivial
-  case getLookupHit t k e hpc =>
+  case getLookupHit t k n m e hpc =>
     exact inv_setPc h t _ (by rw [hpc]; rfl) (by rw [hpc]; rfl) trivial
-  case getLookupMiss t k hpc =>
-    exact inv_setPc h t _ (by rw [hpc]; rfl) (by rw [hpc]; rfl) trivial
-  case getTryOk t e k hpc hwr =>
+  case getLookupMiss t k n m hpc =>
+    apply inv_setPc h t _
+    · rw [hpc]; split
+      · exact again_wsec ..
+      · rfl
+    · rw [hpc]; split
+      · exact again_rsec ..
+      · rfl
+    · split
+      · exact again_ok ..
+      · trivial
+  case getTryOk t e k n m hpc hwr =>
     constructor
     · intro e' t'; simp only [State.setPc, State.setEnt, upd]; grind [Pc.wsec]
     · intro e' t'; simp only [State.setPc, State.setEnt, upd]; grind [Pc.rsec]
     · intro e' t'; simp only [State.setPc, State.setEnt, upd]; grind
     · intro e'; simp only [State.setPc, State.setEnt, upd]; grind
     · exact pcok_lockstep h t e _ _ rfl rfl trivial
-  case getTryFail t e k hpc =>
-    exact inv_setPc h t _ (by rw [hpc]; rfl) (by rw [hpc]; rfl) trivial
-  case getCheck t e k hpc =>
+  case getTryFail t e k n m hpc =>
+    exact inv_setPc h t _ (by rw [hpc]; exact again_wsec ..) (by rw [hpc]; exact again_rsec ..) (again_ok ..)
+  case getCheck t e k n m hpc =>
     apply inv_setPc h t _
     · rw [hpc]; split <;> rfl
     · rw [hpc]; split <;> rfl
@@ -221,7 +239,7 @@ theorem step_inv {s s' : State K V} (h : Inv s) (st : Step s s') : Inv s' := by
         simp only [Bool.or_eq_true, Option.isNone_iff_eq_none, decide_eq_true_eq, not_or,
           Decidable.not_not] at hc
         exact ⟨hc.2, hc.1⟩
-  case getCopy t e k hpc =>
+  case getCopy t e k n m hpc =>
     have hp := h5 t; rw [hpc] at hp
     simp only [PcOk] at hp
     have hr : (s.pc t).rsec = some e := by rw [hpc]; rfl
@@ -249,13 +267,15 @@ theorem step_inv {s s' : State K V} (h : Inv s) (st : Step s s') : Inv s' := by
     · intro e' t'; simp only [State.setPc, State.setEnt, upd]; grind
     · intro e'; simp only [State.setPc, State.setEnt, upd]; grind
     · exact pcok_lockstep h t e _ _ rfl rfl hp
-  case getUnlockMiss t e k hpc =>
+  case getUnlockMiss t e k n m hpc =>
+    have hw0 := again_wsec (V := V) k n m
+    have hr0 := again_rsec (V := V) k n m
     constructor
     · intro e' t'; simp only [State.setPc, State.setEnt, upd]; grind [Pc.wsec]
     · intro e' t'; simp only [State.setPc, State.setEnt, upd]; grind [Pc.rsec]
     · intro e' t'; simp only [State.setPc, State.setEnt, upd]; grind
     · intro e'; simp only [State.setPc, State.setEnt, upd]; grind
-    · exact pcok_lockstep h t e _ _ rfl rfl trivial
+    · exact pcok_lockstep h t e _ _ rfl rfl (again_ok ..)
   case getRet t k res hpc =>
     exact inv_setPc h t _ (by rw [hpc]; rfl) (by rw [hpc]; rfl) trivial
   case callRelease t e hpc =>
@@ -297,8 +317,6 @@ theorem step_inv {s s' : State K V} (h : Inv s) (st : Step s s') : Inv s' := by
     · intro e' t'; simp only [State.setPc, State.setEnt, upd]; grind
     · intro e'; simp only [State.setPc, State.setEnt, upd]; grind
     · exact pcok_lockstep h t e _ _ rfl rfl trivial
-  case relPut t e hpc =>
-    exact inv_setPc h t _ (by rw [hpc]; rfl) (by rw [hpc]; rfl) trivial
 
 theorem reachable_inv {s : State K V} (h : Reachable s) : Inv s := by
   induction h with
